@@ -86,6 +86,14 @@ fn list_blobs(files_dir: &Path) -> Listing {
     out
 }
 
+async fn file_log_commits(account: &sos_net::NetworkAccount) -> Vec<[u8; 32]> {
+    use sos_core::events::EventLog;
+    match account.file_log().await {
+        Ok(log) => log.read().await.tree().leaves().unwrap_or_default(),
+        Err(_) => vec![],
+    }
+}
+
 /// Compare one place's blobs with an expected set; returns true when equal.
 fn judge_listing(rep: &mut Reporter, place: &str, against: &str, listing: &Listing, expected: &BTreeSet<Key>, ctx: &Value, report: bool) -> bool {
     let have: BTreeSet<Key> = listing.blobs.keys().cloned().collect();
@@ -269,6 +277,12 @@ struct World {
     folders: Vec<VaultId>,
     default_folder: VaultId,
     secrets: BTreeMap<SecretId, FileSecret>,
+    /// secrets that are NOT file secrets but carry external files as attachments (custom
+    /// fields): id -> folder
+    notes: BTreeMap<SecretId, VaultId>,
+    /// files whose events reached device 2 in a sync during which device 2's file log was
+    /// rewound (auto-merge of the file log)
+    via_auto_merge: BTreeSet<Key>,
     /// secrets whose blob was (re)written since the last decrypt check, per device
     /// (decrypting costs one scrypt run, so only touched blobs are decrypted)
     dirty1: BTreeSet<SecretId>,
@@ -302,27 +316,100 @@ impl World {
         self.server.account_paths(&self.account_id).into_files_dir()
     }
 
-    /// Blobs named by the live file secrets of the model, read through device 1.
+    /// Blobs named by the live secrets of the model (a file secret's own blob and every
+    /// external-file attachment of a secret), read through device 1.
     async fn model_set(&self) -> Result<BTreeSet<Key>, String> {
         let mut out = BTreeSet::new();
-        for (id, fs) in &self.secrets {
-            let (row, _) = self.d1.account.read_secret(id, Some(&fs.folder)).await.map_err(|e| format!("read_secret {id}: {e}"))?;
+        let all: Vec<(SecretId, VaultId, bool)> = self.secrets.iter().map(|(id, fs)| (*id, fs.folder, true)).chain(self.notes.iter().map(|(id, f)| (*id, *f, false))).collect();
+        for (id, folder, is_file) in all {
+            let (row, _) = self.d1.account.read_secret(&id, Some(&folder)).await.map_err(|e| format!("read_secret {id}: {e}"))?;
             match row.secret() {
                 Secret::File { content: FileContent::External { checksum, .. }, .. } => {
                     let name: ExternalFileName = (*checksum).into();
-                    out.insert((fs.folder.to_string(), id.to_string(), name.to_string()));
+                    out.insert((folder.to_string(), id.to_string(), name.to_string()));
                 }
-                other => return Err(format!("file secret {id} reads back as {}", other.kind())),
+                other if is_file => return Err(format!("file secret {id} reads back as {}", other.kind())),
+                _ => {}
+            }
+            for field in row.secret().user_data().fields() {
+                if let Secret::File { content: FileContent::External { checksum, .. }, .. } = field.secret() {
+                    let name: ExternalFileName = (*checksum).into();
+                    out.insert((folder.to_string(), id.to_string(), name.to_string()));
+                }
             }
         }
         Ok(out)
     }
 
+    /// Add an external file as a custom field of an existing secret.
+    async fn attach(&mut self, rng: &mut Rng, id: SecretId, f: VaultId) -> Result<(), String> {
+        let plain = make_plain(rng, self.max_bytes.min(50_000));
+        let path = self.tmp.join(format!("att-{}.bin", rng.token(10)));
+        std::fs::write(&path, &plain).map_err(|e| e.to_string())?;
+        let att: Secret = path.clone().try_into().map_err(|e| format!("{e}"))?;
+        let att_meta = SecretMeta::new(format!("attachment {}", rng.token(6)), att.kind());
+        let (mut row, _) = self.d1.account.read_secret(&id, Some(&f)).await.map_err(|e| format!("read before attach: {e}"))?;
+        row.secret_mut().add_field(sos_vault::secret::SecretRow::new(SecretId::new_v4(), att_meta, att));
+        let r = self.d1.account.update_secret(&id, row.meta().clone(), Some(row.secret().clone()), opts(&f)).await;
+        let _ = std::fs::remove_file(&path);
+        r.map(|_| ()).map_err(|e| format!("attach file: {e}"))
+    }
+
     async fn one_op(&mut self, rng: &mut Rng) -> Result<&'static str, String> {
         let ids: Vec<SecretId> = self.secrets.keys().copied().collect();
         let extra_folders: Vec<VaultId> = self.folders.iter().copied().filter(|f| *f != self.default_folder).collect();
-        let choice = rng.weighted(&[30, if ids.is_empty() { 0 } else { 16 }, if ids.is_empty() || self.folders.len() < 2 { 0 } else { 16 }, if ids.is_empty() { 0 } else { 12 }, if extra_folders.is_empty() { 0 } else { 6 }, if self.folders.len() < 4 { 9 } else { 0 }]);
+        let note_ids: Vec<SecretId> = self.notes.keys().copied().collect();
+        let choice = rng.weighted(&[
+            30,
+            if ids.is_empty() { 0 } else { 16 },
+            if ids.is_empty() || self.folders.len() < 2 { 0 } else { 16 },
+            if ids.is_empty() { 0 } else { 12 },
+            if extra_folders.is_empty() { 0 } else { 6 },
+            if self.folders.len() < 4 { 9 } else { 0 },
+            10,
+            if note_ids.is_empty() { 0 } else { 8 },
+            if note_ids.is_empty() || self.folders.len() < 2 { 0 } else { 8 },
+            if ids.is_empty() { 0 } else { 6 },
+        ]);
         match choice {
+            6 => {
+                // a note that carries an external file as an attachment
+                let f = *rng.pick(&self.folders);
+                let secret = Secret::Note { text: format!("note {}", rng.token(12)).into(), user_data: Default::default() };
+                let meta = SecretMeta::new(format!("note {}", rng.token(6)), secret.kind());
+                let id = self.d1.account.create_secret(meta, secret, opts(&f)).await.map_err(|e| format!("create note: {e}"))?.id;
+                self.notes.insert(id, f);
+                self.attach(rng, id, f).await?;
+                self.log.push(format!("create note {id} in {f} with a file attachment"));
+                Ok("note_with_attachment")
+            }
+            7 => {
+                let id = *rng.pick(&note_ids);
+                let f = self.notes[&id];
+                self.d1.account.delete_secret(&id, opts(&f)).await.map_err(|e| format!("delete note: {e}"))?;
+                self.notes.remove(&id);
+                self.log.push(format!("delete note {id} (with attachment) in {f}"));
+                Ok("delete_note_with_attachment")
+            }
+            8 => {
+                let id = *rng.pick(&note_ids);
+                let from = self.notes[&id];
+                let others: Vec<VaultId> = self.folders.iter().copied().filter(|g| *g != from).collect();
+                let to = *rng.pick(&others);
+                let mv = self.d1.account.move_secret(&id, &from, &to, Default::default()).await.map_err(|e| format!("move note: {e}"))?;
+                self.notes.remove(&id);
+                self.notes.insert(mv.id, to);
+                self.log.push(format!("move note {id} (with attachment) from {from} to {to} (new id {})", mv.id));
+                Ok("move_note_with_attachment")
+            }
+            9 => {
+                // a file secret that also carries an attachment
+                let id = *rng.pick(&ids);
+                let f = self.secrets[&id].folder;
+                self.attach(rng, id, f).await?;
+                self.log.push(format!("attach a file to file secret {id} in {f}"));
+                Ok("attach_to_file_secret")
+            }
             0 => {
                 let f = *rng.pick(&self.folders);
                 let plain = make_plain(rng, self.max_bytes);
@@ -387,6 +474,7 @@ impl World {
                 let n = self.secrets.values().filter(|s| s.folder == f).count();
                 self.log.push(format!("delete folder {f} holding {n} file secret(s)"));
                 self.secrets.retain(|_, s| s.folder != f);
+                self.notes.retain(|_, g| *g != f);
                 self.folders.retain(|g| *g != f);
                 Ok("delete_folder")
             }
@@ -501,17 +589,56 @@ impl World {
                 }
             }
         }
-        // server -> device 2
-        if let Some(e) = self.d2.account.sync().await.first_error() {
-            rep.inconclusive(&format!("device 2 sync failed: {e}"));
-            return;
+        // server -> device 2; "synced" means converged: a device that itself logged file
+        // events while merging (a merged folder deletion) needs a further round (bound as in C04)
+        let mut expected2: BTreeSet<Key> = BTreeSet::new();
+        for round in 0..3 {
+            let commits_before = file_log_commits(&self.d2.account).await;
+            let set_before: BTreeSet<Key> = self.d2.account.canonical_files().await.map(|s| s.iter().map(key_of).collect()).unwrap_or_default();
+            if let Some(e) = self.d2.account.sync().await.first_error() {
+                rep.inconclusive(&format!("device 2 sync failed: {e}"));
+                return;
+            }
+            expected2 = match self.d2.account.canonical_files().await {
+                Ok(s) => s.iter().map(key_of).collect(),
+                Err(_) => return,
+            };
+            let commits_after = file_log_commits(&self.d2.account).await;
+            if !commits_after.starts_with(&commits_before) {
+                rep.count("device2_file_log_auto_merges", 1);
+                self.via_auto_merge.extend(expected2.difference(&set_before).cloned());
+            }
+            if expected2 == expected {
+                rep.count(&format!("device2_converged_in_rounds:{}", round + 1), 1);
+                break;
+            }
+            if let Some(e) = self.d1.account.sync().await.first_error() {
+                rep.inconclusive(&format!("device 1 sync failed: {e}"));
+                return;
+            }
         }
-        let expected2: BTreeSet<Key> = match self.d2.account.canonical_files().await {
-            Ok(s) => s.iter().map(key_of).collect(),
-            Err(_) => return,
-        };
         if expected2 != expected {
-            rep.violation("C17:file_log:device2_vs_device1:differs", "after both devices synced without error their file logs replay to different sets of files", ctx.clone());
+            // raw file logs for the witness
+            let mut raw = vec![];
+            for (name, acc) in [("device1", &self.d1.account), ("device2", &self.d2.account)] {
+                if let Ok(log) = acc.file_log().await {
+                    use futures::StreamExt;
+                    use sos_core::events::EventLog;
+                    let log = log.read().await;
+                    let st = log.event_stream(false).await;
+                    futures::pin_mut!(st);
+                    let mut evs = vec![];
+                    while let Some(Ok((rec, ev))) = st.next().await {
+                        evs.push(format!("{} {:?}", hex::encode(&rec.commit().0[..3]), ev).chars().take(150).collect::<String>());
+                    }
+                    raw.push(json!({"who": name, "file_log": evs}));
+                }
+            }
+            let mut ctx = ctx.clone();
+            ctx["raw_file_logs"] = json!(raw);
+            let only1: Vec<&Key> = expected.difference(&expected2).take(4).collect();
+            let only2: Vec<&Key> = expected2.difference(&expected).take(4).collect();
+            rep.violation("C17:file_log:device2_vs_device1:differs", &format!("after three rounds of syncs without error the file logs of the two devices replay to different sets of files; only on device 1: {only1:?}; only on device 2: {only2:?}"), ctx.clone());
         }
         let ddir = self.d2.files_dir();
         let exp = expected2.clone();
@@ -532,12 +659,21 @@ impl World {
         let listing = list_blobs(&ddir);
         let mut c = ctx.clone();
         c["transfers"] = json!(self.d2.tally_text());
+        // blobs whose events came in through an auto-merge of the file log are judged under
+        // their own signature (the merge outcome of that path never reaches the download queue)
+        let have: BTreeSet<Key> = listing.blobs.keys().cloned().collect();
+        let missing_am: Vec<Key> = expected2.difference(&have).filter(|k| self.via_auto_merge.contains(*k)).cloned().collect();
+        if !missing_am.is_empty() {
+            rep.violation("C17:blobs_vs_file_log:device2:missing_blob_after_file_log_auto_merge", &format!("device2: {} blob(s) named by its file log were never downloaded; their events arrived while the device's file log was auto-merged: {:?}", missing_am.len(), &missing_am[..missing_am.len().min(4)]), c.clone());
+        }
+        let expected2: BTreeSet<Key> = expected2.into_iter().filter(|k| !missing_am.contains(k)).collect();
         let equal = judge_listing(rep, "device2", "file_log", &listing, &expected2, &c, true);
         judge_names(rep, "device2", &listing, &c);
         let _ = equal;
         {
             // at most two decrypts per sync point (one scrypt run each)
-            let ids: Vec<SecretId> = self.dirty2.iter().copied().filter(|i| self.secrets.contains_key(i)).take(2).collect();
+            let skip: BTreeSet<String> = missing_am.iter().map(|k| k.1.clone()).collect();
+            let ids: Vec<SecretId> = self.dirty2.iter().copied().filter(|i| self.secrets.contains_key(i) && !skip.contains(&i.to_string())).take(2).collect();
             self.check_decrypt(rep, &self.d2, &c, &ids).await;
             self.dirty2.clear();
         }
@@ -787,7 +923,7 @@ async fn history(args: &Args, rep: &mut Reporter, rng: &mut Rng, base: &Path, p:
     let default_folder = *d1.account.default_folder().await.ok_or_else(|| anyhow::anyhow!("no default folder"))?.id();
     let tmp = dir.join("tmp");
     std::fs::create_dir_all(&tmp)?;
-    let mut w = World { server, account_id: p.account_id, d1, d2, folders: vec![default_folder], default_folder, secrets: BTreeMap::new(), dirty1: BTreeSet::new(), dirty2: BTreeSet::new(), log: vec![], tmp, max_bytes: args.by_tier(200_000, 2_000_000) };
+    let mut w = World { server, account_id: p.account_id, d1, d2, folders: vec![default_folder], default_folder, secrets: BTreeMap::new(), notes: BTreeMap::new(), via_auto_merge: BTreeSet::new(), dirty1: BTreeSet::new(), dirty2: BTreeSet::new(), log: vec![], tmp, max_bytes: args.by_tier(200_000, 2_000_000) };
     let n_ops = args.by_tier(8usize, 24usize);
     let polls = args.by_tier(400usize, 1200usize);
     let mut kinds: BTreeSet<&'static str> = BTreeSet::new();
